@@ -63,11 +63,8 @@ func replaceMatchers(selectors matcherHeap, expr *parser.Expr) {
 			filters := make([]*labels.Matcher, len(e.LabelMatchers))
 			copy(filters, e.LabelMatchers)
 
-			// All replacements are done on metrics name only,
-			// so we can drop the explicit metric name selector.
-			filters = dropMatcher(labels.MetricName, filters)
-
-			// Drop filters which are already present as matchers in the replacement selector.
+			// Drop filters which are already present as matchers in the replacement selector
+			// (the metric name matcher the replacement was found by is one of them).
 			for _, s := range replacement {
 				filters = dropEqualMatcher(s, filters)
 			}
@@ -79,19 +76,6 @@ func replaceMatchers(selectors matcherHeap, expr *parser.Expr) {
 			return
 		}
 	})
-}
-
-func dropMatcher(matcherName string, originalMatchers []*labels.Matcher) []*labels.Matcher {
-	i := 0
-	for i < len(originalMatchers) {
-		l := originalMatchers[i]
-		if l.Name == matcherName {
-			originalMatchers = append(originalMatchers[:i], originalMatchers[i+1:]...)
-		} else {
-			i++
-		}
-	}
-	return originalMatchers
 }
 
 // dropEqualMatcher removes the matchers that are equal to m (same name, type and value).
